@@ -482,9 +482,11 @@ func C15(c *mc.Ctx) {
 		}
 		b.Run()
 	}
+	c15PrioRun(c)
 	fix.Cleanup()
 	c.Set("rule", "BFS (normal admins treated symmetrically: 'next' = next normal admin that has not voted) over histories of open / vote(approve, reject, garbage) by super admin, next admin, the same admin again, an outsider, a previously frozen admin / withdraw by proposer or someone else / freeze of an admin before opening, for admin sets {1 super+3, 1 super+2, 2 super+2} x strategies {a>0.5t, a>=t, a>=2, a>=1, a>0.5t&&r<2} x proposal kinds {node registration (ordinary), admin registration (special), appchain freeze (special)}; after every step the receipt verdict, proposal status, tallies/ballots, and the governed object's record are compared with an independent tally model (govaluate on a, r, t)")
-	c.Assume("one open proposal at a time per history; priority locking between concurrent proposals on one object is exercised by C16's macro operations")
+	c.Set("rule_priority", "second BFS (priomc): two proposals on one object (service or appchain of chain A): L = freeze (priority 2) and H = logout (priority 3, pauses an open L); ops open:L, open:H, vote:{L,H}:{super,next,last}:{approve,reject}, withdraw:{L,H}; model = voting rule + locking discipline (paused proposal not votable; H approved => L rejected, H rejected/withdrawn => L proposed again; concluded records immutable)")
+	c.Assume("first engine: one open proposal at a time per history; second engine: at most one L and one H per history")
 	if c.Get("concluded_proposals_checked") == 0 || c.Get("steps_refused_by_model") == 0 {
 		c.HarnessError("vacuous")
 	}
